@@ -88,6 +88,11 @@ def corpus_cases():
              choices="D D D D D D D D D D D W0 W0 W0 W0 W1 W1 W1 i2 Z Z Z i20 Z Z Z".split()),
         # batch ^C before the first connection
         dict(base, fanout=1, hosts=two, opts=dict(opts, batch=1), choices="D D D i2 Z Z Z".split()),
+        # the first two again with the copy personality (workers are _rcp_thread)
+        dict(base, fanout=1, hosts=one, opts=dict(opts, pers="pcp"),
+             choices="D D D D D D i2 Z Z Z i20 Z Z Z W0".split()),
+        dict(base, fanout=1, hosts=two, opts=dict(opts, pers="pcp"),
+             choices="D D D D D D D D W0 W0 W0 i2 Z Z Z i20 Z Z Z".split()),
     ]
 
 
